@@ -291,6 +291,38 @@ def emit_case(args):
     return (way, lang, name, bodyname, err)
 
 
+def nocomment_case(args):
+    """The documented option show_splicer_comments: false only removes the '<comment> splicer begin/end <name>' lines: whatever
+    the user supplied for a block is still there (same text as with the comments, minus those lines)."""
+    workdir, ydict, way, lang, name, bodyname = args
+    body = BODIES[bodyname]
+    y1, files, argv = supply(way, lang, name, body, ydict)
+    out1, r1 = gen(os.path.join(workdir, "with"), y1, files, argv)
+    y2 = json.loads(json.dumps(y1))
+    y2.setdefault("options", {})["show_splicer_comments"] = False
+    out2, r2 = gen(os.path.join(workdir, "without"), y2, files, argv)
+    err = None
+    if r1.status != "ok" or r2.status != "ok":
+        err = "shroud failed: %s %s / %s %s" % (r1.exc, r1.msg, r2.exc, r2.msg)
+    else:
+        marker = re.compile(r"^\s*(//|!|--|#)\s*splicer (begin|end) ")
+        for fn in sorted(os.listdir(out1)):
+            if lang_of_file(fn) is None or fn.endswith((".json", ".log", ".yaml")):
+                continue
+            a = [ln for ln in open(os.path.join(out1, fn)).read().split("\n") if not marker.match(ln)]
+            try:
+                b = open(os.path.join(out2, fn)).read().split("\n")
+            except OSError:
+                err = "%s is not written with show_splicer_comments: false" % fn
+                break
+            if a != b:
+                k = [i for i, (x, z) in enumerate(zip(a + ["<end>"], b + ["<end>"])) if x != z][0]
+                err = "%s differs beyond the splicer comment lines at line %d: with comments %r, without %r" % (fn, k + 1, a[k:k + 2], b[k:k + 2])
+                break
+    shutil.rmtree(workdir, ignore_errors=True)
+    return ("no-comments " + way, lang, name, bodyname, err)
+
+
 def decl_case(args):
     """Per-declaration splicer, with and without a competing splicer_code entry."""
     workdir, ydict, idx_path, key, lang, name, bodyname, compete, base_blocks = args[:9]
@@ -693,6 +725,12 @@ def run(ctx):
             i += 1
             djobs.append((os.path.join(basedir, "w%d" % i), ydict_c, path, key, lang, name, b, False, base_blocks_c))
     res += isolate.pmap(decl_case, djobs, W)
+    njobs = []
+    for lang, name in (names if not quick else names[:: max(1, len(names) // 24)]):
+        for w in ways:
+            i += 1
+            njobs.append((os.path.join(basedir, "w%d" % i), ydict, w, lang, name, "one"))
+    res += isolate.pmap(nocomment_case, njobs, W)
     tjobs = []
     for lang in ("c", "f", "py", "lua"):
         ln = [n for l, n in names if l == lang]
